@@ -138,6 +138,7 @@ type Node struct {
 	Decided  int64              // highest height audited by the monitors
 	Config   *cfg.ConsensusConfig
 	WALPath  string
+	Halted   string // non-empty: the panic value that stopped this node
 }
 
 // NodeOpt tunes node construction.
